@@ -228,3 +228,8 @@ def svg_fingerprint(font):
     docs = svg_docs(font)
     uses = sum(d[0].count("<use") for d in docs)
     return f"docs{len(docs)}-use{min(uses, 3)}-lg{int(any('linearGradient' in d[0] for d in docs))}-rg{int(any('radialGradient' in d[0] for d in docs))}"
+
+
+def _use_scale_matrix(m, s_vb):
+    """scale a leaf matrix applies beyond the viewBox->font placement scale s_vb"""
+    return max(math.hypot(m[0], m[1]), math.hypot(m[2], m[3])) / s_vb
